@@ -34,6 +34,10 @@ if s.get('sleep'):
     time.sleep(s['sleep'])
 if s.get('barrier'):
     open(s['barrier'] + '.ended', 'w').write(str(time.monotonic()))
+if s.get('hold_stderr'):
+    # a helper process inherits our stderr and keeps it open after we are gone
+    import subprocess
+    subprocess.Popen(['sleep', str(s['hold_stderr'])], stdin=subprocess.DEVNULL, stdout=subprocess.DEVNULL)
 end = s.get('end', 'exit0')
 if end == 'exit0':
     os._exit(0)
